@@ -2,7 +2,8 @@
    12 x^2 + y^2 = 1 + 6 x^2 y^2  (a = 12 = 5^2, d = 6 a non-square, hence complete: toy curve
    te13_m1_complete of C03; 20 points).  Completeness is derived from C03_te_complete (the
    non-squareness of 6 by exhausting F_13), associativity by exhausting the 20^3 triples. *)
-From V Require Import Base.Field Base.Word Base.ZpField Base.ZpInstances C03.CurveExec
+From Param Require Import Param.
+From V Require Import Base.Field Base.Word Base.ZpField Base.ZpInstances Base.ZpTransfer C03.CurveExec
   C03.TEProofs C03.FieldHyp Props.C03 C12.TESubgroupProofs
   Link.SubGroup Link.TEGroup Link.TERealises Link.Examples.
 From V Require C04.GroupOps C04.GroupTheory C04.ScalarMul C04.Run C05.Run.
@@ -21,30 +22,60 @@ Proof.
     apply Feq13 in E. rewrite E in K. discriminate K.
 Qed.
 
-Definition te_beq (A B : @te_aff (Fp 13)) : bool := C05.Run.te_aff_beq F13 A B.
-Lemma te_beq_eq A B : te_beq A B = true -> A = B.
+(* value lemmas for the Edwards law (same recipe as Base/ZpTransfer.v) *)
+Parametricity Recursive aff_add_te.
+Lemma pair_R_val p (A : Fp p * Fp p) B : prod_R _ _ (Rp p) _ _ (Rp p) A B -> pair_val A = B.
+Proof. intros H. destruct H as [x1 x2 Hx y1 y2 Hy]. unfold Rp in *. subst. reflexivity. Qed.
+Lemma pair_val_R p (A : Fp p * Fp p) : prod_R _ _ (Rp p) _ _ (Rp p) A (pair_val A).
+Proof. destruct A. constructor; reflexivity. Qed.
+Lemma aff_add_te_val p a d (A B : Fp p * Fp p) :
+  pair_val (aff_add_te (FpOps p) a d A B) = aff_add_te (ZpOps p) (fpv a) (fpv d) (pair_val A) (pair_val B).
 Proof.
-  destruct A as [x y], B as [x' y']. unfold te_beq, C05.Run.te_aff_beq. cbn [fst snd]. intros H.
-  apply andb_true_iff in H. destruct H as [H1 H2]. apply Feq13 in H1, H2. subst. reflexivity.
+  apply pair_R_val.
+  apply (aff_add_te_R _ _ (Rp p) _ _ (FpZp_R p) _ _ (Rp_fpv p a) _ _ (Rp_fpv p d)); apply pair_val_R.
 Qed.
-Definition te_pts13 : list (@te_aff (Fp 13)) := filter (te_aff_on_curve F13 ta13 td13) (list_prod els13 els13).
-Definition te_assoc_check : bool :=
-  forallb (fun A => forallb (fun B => forallb (fun C =>
-    te_beq (aff_add_te F13 ta13 td13 A (aff_add_te F13 ta13 td13 B C))
-           (aff_add_te F13 ta13 td13 (aff_add_te F13 ta13 td13 A B) C))
-    te_pts13) te_pts13) te_pts13.
-Lemma te_assoc_check_true : te_assoc_check = true.
-Proof. vm_cast_no_check (eq_refl true). Qed.   (* evaluated once, by the kernel, at Qed (~60 s) *)
-Lemma te_pts13_in A : te_aff_on F13 ta13 td13 A -> In A te_pts13.
+Lemma te_aff_on_val p a d (A : Fp p * Fp p) :
+  te_aff_on (FpOps p) a d A <-> te_aff_on (ZpOps p) (fpv a) (fpv d) (pair_val A).
 Proof.
-  destruct A as [x y]. intros H. apply filter_In. split; [apply in_prod; apply els13_all|].
-  apply (te_onb_on F13 ta13 td13 F13_good). exact H.
+  destruct A as [x y]. cbn [pair_val fst snd te_aff_on].
+  apply Rp_eq; repeat first [apply Rp_fmul | apply Rp_fadd | apply Rp_fpv | apply Rp_f1].
+Qed.
+
+Definition zte_onb (A : Z * Z) : bool :=
+  let '(x, y) := A in
+  fadd Z13 (fmul Z13 12 (fmul Z13 x x)) (fmul Z13 y y)
+  =? fadd Z13 1 (fmul Z13 6 (fmul Z13 (fmul Z13 x x) (fmul Z13 y y))).
+Lemma zte_onb_on A : te_aff_on Z13 12 6 A -> zte_onb A = true.
+Proof. destruct A as [x y]. unfold zte_onb, te_aff_on. intros H. apply Z.eqb_eq. exact H. Qed.
+Definition zte_beq (A B : Z * Z) : bool := (fst A =? fst B) && (snd A =? snd B).
+Lemma zte_beq_eq A B : zte_beq A B = true -> A = B.
+Proof.
+  destruct A as [x y], B as [x' y']. unfold zte_beq. cbn [fst snd]. intros H.
+  apply andb_true_iff in H. destruct H as [H1 H2]. apply Z.eqb_eq in H1, H2. subst. reflexivity.
+Qed.
+Definition zte_pts13 : list (Z * Z) := filter zte_onb (list_prod zels13 zels13).
+(* 20 points; 20^3 triples *)
+Lemma zte_pts13_count : length zte_pts13 = 20%nat.
+Proof. vm_compute. reflexivity. Qed.
+Lemma zte_assoc_check_true : assoc_check zte_pts13 zte_beq (aff_add_te Z13 12 6) = true.
+Proof. vm_compute. reflexivity. Qed.
+Lemma zte_pts13_in (A : @te_aff (Fp 13)) : te_aff_on F13 ta13 td13 A -> In (pair_val A) zte_pts13.
+Proof.
+  intros H. apply filter_In. split.
+  - destruct A as [x y]. cbn [pair_val fst snd]. apply in_prod; apply zels13_all.
+  - apply zte_onb_on. apply (te_aff_on_val 13 ta13 td13 A) in H. exact H.
+Qed.
+Lemma pair_val_inj (A B : Fp 13 * Fp 13) : pair_val A = pair_val B -> A = B.
+Proof.
+  destruct A as [x y], B as [x' y']. cbn [pair_val fst snd]. intros H.
+  injection H as H1 H2. apply fp_eq in H1, H2. subst. reflexivity.
 Qed.
 Theorem te_assoc_13 : te_law_assoc F13 ta13 td13.
 Proof.
-  intros A B C HA HB HC. apply te_beq_eq.
-  exact (assoc_from_check te_pts13 te_beq (aff_add_te F13 ta13 td13) te_assoc_check_true A B C
-           (te_pts13_in A HA) (te_pts13_in B HB) (te_pts13_in C HC)).
+  intros A B C HA HB HC. apply pair_val_inj. unfold F13. rewrite !aff_add_te_val.
+  change (fpv ta13) with 12. change (fpv td13) with 6. change (ZpOps 13) with Z13. apply zte_beq_eq.
+  exact (assoc_from_check zte_pts13 zte_beq (aff_add_te Z13 12 6) zte_assoc_check_true _ _ _
+           (zte_pts13_in A HA) (zte_pts13_in B HB) (zte_pts13_in C HC)).
 Qed.
 
 Definition Q13 : @te_ext (Fp 13) := te_of_affine F13 (fp_of 13 0, fp_of 13 12).   (* the point of order 2 *)
@@ -52,5 +83,14 @@ Lemma Q13_ok : okR F13 ta13 td13 Q13.
 Proof.
   apply (te_of_affine_ok F13 ta13 td13 F13_good). apply (te_onb_on F13 ta13 td13 F13_good). vm_compute. reflexivity.
 Qed.
-Lemma te_pts13_count : length te_pts13 = 20%nat.
-Proof. vm_compute. reflexivity. Qed.
+
+(* the C04 headline statement with NO remaining premise *)
+Theorem te_double_and_add_13 : forall limbs, wf limbs ->
+  te_to_affine F13 (C04.ScalarMul.mul_bigint_proj (C04.Run.te_gops F13 ta13 td13) limbs Q13)
+  = C04.GroupTheory.smul (aff_add_te F13 ta13 td13) (aff_neg_te F13) (te_aff_zero F13) (val limbs)
+      (fp_of 13 0, fp_of 13 12).
+Proof.
+  intros limbs Hwf.
+  rewrite (proj2 (te_double_and_add F13 ta13 td13 F13_good te_complete_13 te_assoc_13 limbs Q13 Hwf Q13_ok)).
+  f_equal; apply pair_val_inj; vm_compute; reflexivity.
+Qed.
